@@ -43,12 +43,21 @@
 //! language binding index I never influences api slots (doc comment of `assign_api_bindings`; the property hands
 //! out ranges from zero in declaration order).
 //!
+//! Flat spaces of plainly spelled histories (`flat_spaces`, same oracle):
+//!   * `pipeline_shapes`: the default group is a property of the pipeline definition; pipelines with every stage
+//!     combination {CS, VS, PS, VS+PS, MS, MS+PS, TS+MS, TS+MS+PS} x `DefaultBindGroup` {not written, 0, 1, 2} x
+//!     (written after / before the stage properties) on every class letter alone and all short histories over a small
+//!     alphabet;
+//!   * `cbuffer_member_counts`: cbuffer blocks with 0..3 members (kinds `cbuffer{N members}`, also letters of the BFS)
+//!     at every position of every history of up to 3 (thorough 4) declarations over a 12 letter alphabet, always
+//!     end-to-end.
+//!
 //! Violation signatures (classes):
 //!   alloc|range-start|<class>            range does not start at the group's previous counter
 //!   alloc|range-length|<class>|<config>  range length != array_len × (2 if metal raw/structured/address else 1)
 //!   alloc|no-slot|<class>                a bound resource received no slot range
 //!   alloc|overlap, alloc|gap, alloc|order   whole-history formulation of (2) and (3)
-//!   alloc|default-group, alloc|explicit-group
+//!   alloc|default-group, alloc|default-group|graphics-pipeline, alloc|explicit-group
 //!   alloc|non-resource-changed-state|<class>, alloc|foreign-group-changed|<class>
 //!   alloc|inline-constants|<what>
 //!   alloc|model-disagrees
@@ -122,10 +131,29 @@ pub struct Kind {
     form: Form,
     /// representative of its allocator class in the class alphabet
     class_rep: bool,
+    /// number of members of a `cbuffer` block (0: `cbuffer X { }`); 1 for everything else
+    members: u8,
 }
 
 const fn k(name: &'static str, ty: &'static str, class: Class, form: Form, class_rep: bool) -> Kind {
-    Kind { name, ty, class, form, class_rep }
+    Kind { name, ty, class, form, class_rep, members: 1 }
+}
+
+/// `cbuffer` block with `members` members (the allocator hands a block one slot whatever it contains)
+const fn kc(name: &'static str, members: u8, class_rep: bool) -> Kind {
+    Kind { name, ty: "", class: Class::CbufferBlock, form: Form::Cbuffer, class_rep, members }
+}
+
+/// `{ ... }` of a cbuffer block called `name` with `members` members
+fn cbuffer_body(name: &str, members: u8) -> String {
+    const TYPES: [&str; 3] = ["float4", "float", "uint2"];
+    let mut s = String::from("{ ");
+    for m in 0..members as usize {
+        let suffix = if m == 0 { String::new() } else { m.to_string() };
+        s.push_str(&format!("{} {}_m{}; ", TYPES[m % 3], name, suffix));
+    }
+    s.push('}');
+    s
 }
 
 /// Every object kind of `ir::ObjectType` that can be declared as a global resource (the `*Mips*` kinds are
@@ -158,6 +186,11 @@ pub const KINDS: &[Kind] = &[
     k("plain float", "float", Class::NonResource, Form::Numeric, false),
     k("static float", "static float", Class::NonResource, Form::Numeric, true),
     k("groupshared float", "groupshared float", Class::NonResource, Form::Numeric, false),
+    // cbuffer blocks by member count (appended: the letter ids of the kinds above are unchanged); the member-less
+    // block is in the class alphabet: it is a bound resource like every other block
+    kc("cbuffer{0 members}", 0, true),
+    kc("cbuffer{2 members}", 2, false),
+    kc("cbuffer{3 members}", 3, false),
 ];
 
 const ARRAYS: [Option<u32>; 4] = [None, Some(1), Some(2), Some(3)];
@@ -241,7 +274,7 @@ fn decl_text(l: Letter, i: usize) -> String {
     }
     match kind.form {
         Form::Object | Form::Numeric => s.push_str(&format!("{} {}{};", kind.ty, name, arr)),
-        Form::Cbuffer => s.push_str(&format!("cbuffer {} {{ float4 {}_m; }}", name, name)),
+        Form::Cbuffer => s.push_str(&format!("cbuffer {} {}", name, cbuffer_body(&name, kind.members))),
         Form::StaticSampler => s.push_str(&format!("{} {}{} = StaticSampler {{ Filter = MIN_MAG_MIP_LINEAR; AddressU = Clamp; }};", kind.ty, name, arr)),
     }
     s
@@ -452,7 +485,7 @@ fn statement_text(hist: &[Letter], sps: &[Sp], i: usize) -> (String, usize) {
     let mut s = attrs_text(l, i, &sps[i]);
     if kind.form == Form::Cbuffer {
         let name = decl_name(i);
-        s.push_str(&format!("cbuffer {}{} {{ float4 {}_m; }}", name, reg_text(l, i, &sps[i]), name));
+        s.push_str(&format!("cbuffer {}{} {}", name, reg_text(l, i, &sps[i]), cbuffer_body(&name, kind.members)));
         return (s, i + 1);
     }
     s.push_str(kind.ty);
@@ -486,6 +519,97 @@ fn decl_show(hist: &[Letter], spell: Option<&[Sp]>, i: usize) -> String {
 pub enum Dg {
     NoPipeline,
     Pipe(u32),
+    /// a pipeline with the given stages; `dbg`: the `DefaultBindGroup` property (None: not written, the default group
+    /// is then 0); `first`: the property is written before the stage properties instead of after them
+    Shaped { stages: Stages, dbg: Option<u32>, first: bool },
+}
+
+/// stage combinations of a pipeline definition (every combination the type checker accepts out of the five stage
+/// properties, as far as a mesh stage comes with the task stage and vertex / mesh are not mixed)
+#[derive(Copy, Clone, PartialEq, Eq, Hash, Debug, PartialOrd, Ord)]
+pub enum Stages {
+    Compute,
+    Vertex,
+    Pixel,
+    VertexPixel,
+    Mesh,
+    MeshPixel,
+    TaskMesh,
+    TaskMeshPixel,
+}
+
+pub const ALL_STAGES: [Stages; 8] = [Stages::Compute, Stages::Vertex, Stages::Pixel, Stages::VertexPixel, Stages::Mesh, Stages::MeshPixel, Stages::TaskMesh, Stages::TaskMeshPixel];
+
+impl Stages {
+    fn name(self) -> &'static str {
+        match self {
+            Stages::Compute => "CS",
+            Stages::Vertex => "VS",
+            Stages::Pixel => "PS",
+            Stages::VertexPixel => "VS+PS",
+            Stages::Mesh => "MS",
+            Stages::MeshPixel => "MS+PS",
+            Stages::TaskMesh => "TS+MS",
+            Stages::TaskMeshPixel => "TS+MS+PS",
+        }
+    }
+    /// (compute, vertex, task, mesh, pixel)
+    fn has(self) -> (bool, bool, bool, bool, bool) {
+        match self {
+            Stages::Compute => (true, false, false, false, false),
+            Stages::Vertex => (false, true, false, false, false),
+            Stages::Pixel => (false, false, false, false, true),
+            Stages::VertexPixel => (false, true, false, false, true),
+            Stages::Mesh => (false, false, false, true, false),
+            Stages::MeshPixel => (false, false, false, true, true),
+            Stages::TaskMesh => (false, false, true, true, false),
+            Stages::TaskMeshPixel => (false, false, true, true, true),
+        }
+    }
+    /// entry points (and the types they need) behind the declarations, and the stage properties of the pipeline
+    fn text(self) -> (String, String) {
+        let (cs, vs, ts, ms, ps) = self.has();
+        let (mut code, mut props) = (String::new(), String::new());
+        if cs {
+            code.push_str("[numthreads(1, 1, 1)]\nvoid CSMAIN() {}\n");
+            props.push_str("ComputeShader = CSMAIN; ");
+        }
+        if vs {
+            code.push_str("void VSMAIN(uint vid : SV_VertexID, out float4 o_pos : SV_Position) { o_pos = float4(0, 0, 0, 1); }\n");
+            props.push_str("VertexShader = VSMAIN; ");
+        }
+        if ts {
+            code.push_str("struct Payload { uint start_location; };\ngroupshared Payload lds_data;\n");
+            code.push_str("[numthreads(4, 1, 1)]\nvoid TSMAIN(uint3 dtid : SV_DispatchThreadID) { lds_data.start_location = dtid.x; DispatchMesh(4u, 1u, 1u, lds_data); }\n");
+            props.push_str("TaskShader = TSMAIN; ");
+        }
+        if ms {
+            code.push_str("struct VertexAttributes { float4 position : SV_Position; };\n");
+            code.push_str("[numthreads(4, 1, 1)]\n[outputtopology(\"triangle\")]\nvoid MSMAIN(uint3 dtid : SV_DispatchThreadID, ");
+            if ts {
+                code.push_str("in payload Payload data, ");
+            }
+            code.push_str("out vertices VertexAttributes o_vertices[4], out indices uint3 o_triangles[4]) { SetMeshOutputCounts(4, 4); VertexAttributes vertex; vertex.position = float4(0, 0, 0, 1); o_vertices[dtid.x] = vertex; o_triangles[dtid.x] = uint3(0, 1, 2); }\n");
+            props.push_str("MeshShader = MSMAIN; ");
+        }
+        if ps {
+            code.push_str("float4 PSMAIN(float4 pos : SV_Position) : SV_Target0 { return float4(0, 0, 0, 1); }\n");
+            props.push_str("PixelShader = PSMAIN; ");
+        }
+        (code, props)
+    }
+}
+
+/// every pipeline form of the pipeline-shape space: stages x DefaultBindGroup {not written, 0, 1, 2} x (written before /
+/// after the stage properties), simplest first
+pub fn all_shaped() -> Vec<Dg> {
+    let mut v = Vec::new();
+    for (dbg, first) in [(None, false), (Some(0), false), (Some(1), false), (Some(2), false), (Some(0), true), (Some(1), true), (Some(2), true)] {
+        for stages in ALL_STAGES {
+            v.push(Dg::Shaped { stages, dbg, first });
+        }
+    }
+    v
 }
 
 pub const ALL_DGS: [Dg; 4] = [Dg::NoPipeline, Dg::Pipe(0), Dg::Pipe(1), Dg::Pipe(2)];
@@ -495,16 +619,35 @@ impl Dg {
         match self {
             Dg::NoPipeline => 0,
             Dg::Pipe(n) => n,
+            Dg::Shaped { dbg, .. } => dbg.unwrap_or(0),
         }
     }
     fn name(self) -> String {
         match self {
             Dg::NoPipeline => "no-pipeline".to_string(),
             Dg::Pipe(n) => format!("DefaultBindGroup={}", n),
+            Dg::Shaped { stages, dbg, first } => format!(
+                "pipeline({}) DefaultBindGroup={}{}",
+                stages.name(),
+                match dbg {
+                    Some(n) => n.to_string(),
+                    None => "not-written".to_string(),
+                },
+                if first { " written-first" } else { "" }
+            ),
         }
     }
     fn from_name(s: &str) -> Option<Dg> {
-        ALL_DGS.iter().copied().find(|d| d.name() == s)
+        ALL_DGS.iter().copied().chain(all_shaped()).find(|d| d.name() == s)
+    }
+    /// signature part: which kind of pipeline supplied the default group
+    fn class(self) -> &'static str {
+        match self {
+            Dg::NoPipeline => "no-pipeline",
+            Dg::Pipe(_) => "compute-pipeline",
+            Dg::Shaped { stages: Stages::Compute, .. } => "compute-pipeline",
+            Dg::Shaped { .. } => "graphics-pipeline",
+        }
     }
 }
 
@@ -531,6 +674,20 @@ pub fn render_sp(hist: &[Letter], spell: Option<&[Sp]>, dg: Dg) -> String {
                 i = next;
             }
         }
+    }
+    if let Dg::Shaped { stages, dbg, first } = dg {
+        let (code, props) = stages.text();
+        s.push_str(&code);
+        let prop = match dbg {
+            Some(n) => format!("DefaultBindGroup = {}; ", n),
+            None => String::new(),
+        };
+        if first {
+            s.push_str(&format!("Pipeline P {{ {}{}}}\n", prop, props));
+        } else {
+            s.push_str(&format!("Pipeline P {{ {}{}}}\n", props, prop));
+        }
+        return s;
     }
     s.push_str("[numthreads(1, 1, 1)]\nvoid CSMAIN() {}\n");
     if let Dg::Pipe(n) = dg {
@@ -670,7 +827,7 @@ pub fn run_direct(text: &str, cfg: Cfg, dg: Dg) -> Result<Result<Direct, String>
         let module = typecheck_src(text)?;
         let module = match dg {
             Dg::NoPipeline => module,
-            Dg::Pipe(_) => module.select_pipeline("P").ok_or_else(|| "pipeline P not found".to_string())?,
+            _ => module.select_pipeline("P").ok_or_else(|| "pipeline P not found".to_string())?,
         };
         let params = real_params(cfg);
         rssl::ir::verif_alloc::start_trace();
@@ -681,6 +838,9 @@ pub fn run_direct(text: &str, cfg: Cfg, dg: Dg) -> Result<Result<Direct, String>
             match rd {
                 ir::RootDefinition::GlobalVariable(id) => {
                     let g = &module.global_registry[id.0 as usize];
+                    if !g.name.node.starts_with("g_r") {
+                        continue; // a global of the entry point text (groupshared payload of the task stage): a root definition that must change nothing
+                    }
                     decls.push(DeclObs { name: g.name.node.clone(), api: g.api_slot.as_ref().map(loc_of), root_index: i });
                 }
                 ir::RootDefinition::ConstantBuffer(id) => {
@@ -788,7 +948,12 @@ pub fn check_history(hist: &[Letter], cfg: Cfg, dg: Dg, acc: &mut Acc, opt: Opt)
         Ok(Ok(d)) => d,
     };
     // shape of the trace: one snapshot per root definition; root definitions = struct S, the declarations, CSMAIN
-    if d.trace.len() != d.n_roots || d.decls.len() != hist.len() || d.n_roots != hist.len() + 2 {
+    // (the stage texts of the pipeline-shape space bring 1..6 root definitions instead of the one CSMAIN)
+    let roots_ok = match dg {
+        Dg::Shaped { .. } => d.n_roots >= hist.len() + 2 && d.n_roots <= hist.len() + 7,
+        _ => d.n_roots == hist.len() + 2,
+    };
+    if d.trace.len() != d.n_roots || d.decls.len() != hist.len() || !roots_ok {
         cx.v(acc, "machinery|trace-shape".into(), format!("{} snapshots, {} root definitions, {} declarations found for {} letters", d.trace.len(), d.n_roots, d.decls.len(), hist.len()));
         return Checked::Violated;
     }
@@ -843,7 +1008,7 @@ pub fn check_history(hist: &[Letter], cfg: Cfg, dg: Dg, acc: &mut Acc, opt: Opt)
                 };
                 // (4)
                 if set != exp.group {
-                    let sig = if l_group(*l).is_none() { "alloc|default-group" } else { "alloc|explicit-group" };
+                    let sig = if l_group(*l).is_none() { default_group_sig(dg) } else { "alloc|explicit-group" };
                     cx.v(acc, sig.into(), format!("{} landed in group {}, expected group {} (default group of the pipeline is {})", what, set, exp.group, default_group));
                     return Checked::Violated;
                 }
@@ -880,7 +1045,7 @@ pub fn check_history(hist: &[Letter], cfg: Cfg, dg: Dg, acc: &mut Acc, opt: Opt)
                     }
                 };
                 if set != exp.group {
-                    let sig = if l_group(*l).is_none() { "alloc|default-group" } else { "alloc|explicit-group" };
+                    let sig = if l_group(*l).is_none() { default_group_sig(dg) } else { "alloc|explicit-group" };
                     cx.v(acc, sig.into(), format!("{} landed in group {}, expected group {} (default group of the pipeline is {})", what, set, exp.group, default_group));
                     return Checked::Violated;
                 }
@@ -1018,6 +1183,12 @@ pub fn check_history(hist: &[Letter], cfg: Cfg, dg: Dg, acc: &mut Acc, opt: Opt)
     Checked::Live(keys)
 }
 
+/// `alloc|default-group` for the modes that existed first (no-pipeline, compute pipeline), a class of its own for
+/// graphics pipelines
+fn default_group_sig(dg: Dg) -> &'static str {
+    if dg.class() == "graphics-pipeline" { "alloc|default-group|graphics-pipeline" } else { "alloc|default-group" }
+}
+
 fn err_class(e: &str) -> String {
     // the message without the location prefix and without digits/names of our declarations
     let line = e.lines().next().unwrap_or("");
@@ -1046,7 +1217,7 @@ fn e2e_check(cx: &Cx, text: &str, d: &Direct, acc: &mut Acc) -> bool {
     let cfg = cx.cfg;
     let mode = match cx.dg {
         Dg::NoPipeline => Mode::NoPipeline,
-        Dg::Pipe(_) => Mode::Named("P".into()),
+        _ => Mode::Named("P".into()),
     };
     let files = [("main.rssl", text)];
     let job = Job { files: &files, entry: "main.rssl", defines: &[], cfg, mode, validate_layout: false };
@@ -1465,6 +1636,97 @@ fn spelled_spaces(ctx: &Ctx, rep: &mut Report) -> u64 {
     base
 }
 
+// -------------------------------------------------------------------------------------------
+// flat spaces of plainly spelled histories (same oracle as the BFS): pipeline shapes and cbuffer member counts
+
+/// all histories of length 1..=max_len over `alphabet`, shortest first
+fn all_histories(alphabet: &[Letter], max_len: usize, out: &mut Vec<Vec<Letter>>) {
+    let mut level: Vec<Vec<Letter>> = vec![vec![]];
+    for _ in 0..max_len {
+        let mut next = Vec::with_capacity(level.len() * alphabet.len());
+        for h in &level {
+            for a in alphabet {
+                let mut t = h.clone();
+                t.push(*a);
+                next.push(t);
+            }
+        }
+        out.extend(next.iter().cloned());
+        level = next;
+    }
+}
+
+/// histories x target configurations x `dgs`; end-to-end through rssl::compile for histories of up to `e2e_len` letters
+fn run_flat(ctx: &Ctx, rep: &mut Report, name: &str, hists: &[Vec<Letter>], dgs: &[Dg], e2e_len: usize, index_base: u64) -> u64 {
+    let per = (ALL_CFGS.len() * dgs.len()) as u64;
+    let total = hists.len() as u64 * per;
+    let pr = run_par(ctx, total, 64, |idx, acc| {
+        acc.cur_index = index_base + idx;
+        let h = &hists[(idx / per) as usize];
+        let k = (idx % per) as usize;
+        let dg = dgs[k / ALL_CFGS.len()];
+        let cfg = ALL_CFGS[k % ALL_CFGS.len()];
+        let e2e = h.len() <= e2e_len;
+        if let Checked::Live(keys) = check_history(h, cfg, dg, acc, Opt { prefix: None, e2e, ..Opt::default() }) {
+            acc.count(&format!("{}_allocated_as_the_model", name));
+            if let Some(k) = keys.last() {
+                acc.outcome(&(cfg, dg, k));
+            }
+        }
+    });
+    rep.absorb(name, pr);
+    rep.cov(&format!("{}_histories", name), Json::Int(hists.len() as i64));
+    rep.cov(&format!("{}_pipeline_forms", name), Json::Int(dgs.len() as i64));
+    total
+}
+
+/// The two flat spaces. Returns the next free case index.
+fn flat_spaces(ctx: &Ctx, rep: &mut Report, classes: &[Letter], index_base: u64) -> u64 {
+    let mut base = index_base;
+    let by_name = |names: &[&str], groups: &[u16]| -> Vec<Letter> {
+        let mut v = Vec::new();
+        for g in groups {
+            for n in names {
+                v.push(mk_letter(kind_ix(n), 0, *g));
+            }
+        }
+        v
+    };
+
+    // P: pipeline shapes. The default group comes from the pipeline definition, whatever stages it has and wherever
+    // the property is written: every class letter alone + all histories of 2 (thorough 3) declarations over a small
+    // alphabet (one-slot / inline-address / cbuffer-block kinds x group {default, 0, 2})
+    let small = by_name(&["Texture2D", "BufferAddress", "cbuffer"], &[0, 1, 3]);
+    // (quick: the class letters without array length)
+    let quick = ctx.quick();
+    let mut hists: Vec<Vec<Letter>> = classes.iter().filter(|l| !quick || l_array(**l).is_none()).map(|l| vec![*l]).collect();
+    let mut longer = Vec::new();
+    all_histories(&small, ctx.pick(2usize, 3usize), &mut longer);
+    hists.extend(longer.into_iter().filter(|h| h.len() >= 2));
+    // quick: the property is written in front of the stage properties for DefaultBindGroup = 2 only
+    let shaped: Vec<Dg> = all_shaped().into_iter().filter(|d| !quick || !matches!(d, Dg::Shaped { first: true, dbg: Some(0) | Some(1), .. })).collect();
+    base += run_flat(ctx, rep, "pipeline_shapes", &hists, &shaped, 1, base);
+
+    // M: cbuffer blocks by member count {0, 1, 2, 3} at every position of every history of up to 3 (thorough 4)
+    // declarations over {the four blocks x group {default, 1}, Texture2D, ByteAddressBuffer, BufferAddress, Texture2D
+    // in group 1}, always end-to-end (the Metal exporter rewrites cbuffer blocks after the allocation)
+    // (quick: 9 letters, without the block of 3 members and the texture in group 1)
+    let mut alphabet = by_name(&["cbuffer{0 members}", "cbuffer", "cbuffer{2 members}", "Texture2D", "ByteAddressBuffer", "BufferAddress"], &[0]);
+    alphabet.extend(by_name(&["cbuffer{0 members}", "cbuffer", "cbuffer{2 members}"], &[2]));
+    if !quick {
+        alphabet.extend(by_name(&["cbuffer{3 members}"], &[0, 2]));
+        alphabet.extend(by_name(&["Texture2D"], &[2]));
+    }
+    let mut hists = Vec::new();
+    let max_len = ctx.pick(3usize, 4usize);
+    all_histories(&alphabet, max_len, &mut hists);
+    let is_block = |l: &Letter| l_kind(*l).form == Form::Cbuffer;
+    hists.retain(|h| h.iter().any(is_block));
+    let dgs: Vec<Dg> = if ctx.quick() { vec![Dg::NoPipeline, Dg::Pipe(1)] } else { vec![Dg::NoPipeline, Dg::Pipe(1), Dg::Shaped { stages: Stages::VertexPixel, dbg: Some(2), first: false }] };
+    base += run_flat(ctx, rep, "cbuffer_member_counts", &hists, &dgs, max_len, base);
+    base
+}
+
 /// probe every letter alone: the alphabet consists of the declarations the type checker accepts
 fn probe_letters(rep: &mut Report) -> Result<Vec<Letter>, String> {
     let mut accepted = Vec::new();
@@ -1540,6 +1802,7 @@ pub fn run(ctx: &Ctx) -> i32 {
     }
     // the spelled spaces first: they consist of histories of 1..4 declarations
     let index_start = spelled_spaces(ctx, &mut rep);
+    let index_start = flat_spaces(ctx, &mut rep, &classes, index_start);
     bfs_all(ctx, &mut rep, &mut runs, full_upto, max_depth, e2e_all_depth, index_start);
 
     let mut per_config: Vec<Json> = Vec::new();
@@ -1611,7 +1874,8 @@ pub fn run(ctx: &Ctx) -> i32 {
         "two slots per element on Metal are expected for ByteAddressBuffer, RWByteAddressBuffer, StructuredBuffer, RWStructuredBuffer, BufferAddress, RWBufferAddress and for nothing else".into(),
         "the four AssignBindingsParams configurations are transcribed from src/compile.rs; the end-to-end cross-check compares the hook trace inside rssl::compile with the trace of the direct call, so a drift of the transcription is reported as alloc|metadata-disagrees|hook-trace".into(),
         "end-to-end: histories for which rssl::compile returns an error or an exporter panics are counted (e2e_not_crosschecked|...) and not compared; exporter crashes belong to C08".into(),
-        "default group: no-pipeline mode (0 by definition) and a compute pipeline with DefaultBindGroup = 0, 1, 2".into(),
+        "default group: no-pipeline mode (0 by definition) and a compute pipeline with DefaultBindGroup = 0, 1, 2 (BFS, spelled spaces); pipeline_shapes: pipelines with stages {CS, VS, PS, VS+PS, MS, MS+PS, TS+MS, TS+MS+PS} x DefaultBindGroup {not written (default group 0), 0, 1, 2} x property written after / before the stage properties, on every class letter alone (end-to-end) and every history of 2 (thorough 3) declarations over {Texture2D, BufferAddress, cbuffer} x group {default, 0, 2}; entry points do not reference the resources (assign_api_bindings binds every global of the module); other pipeline properties (render target formats, blend states, ...) are not written".into(),
+        "cbuffer blocks have 0, 1, 2 or 3 members (`cbuffer X { }` is a bound resource like every other block: one slot); the BFS alphabets contain all four, cbuffer_member_counts checks them end-to-end at every position of histories of up to 3 (thorough 4) declarations; end-to-end the metadata of every target must list exactly the declarations the allocator bound, so a pass behind the allocator that drops a binding shows as alloc|metadata-disagrees|binding-count".into(),
         "spelled spaces: attributes {[[rssl::bind_group(G)]], [[vk::binding(I)]], [[vk::binding(I, G)]]} in sequences of up to 2 (thorough 3) in every order, register annotations {none, register(spaceG), register(xI), register(xI, spaceG)} with the register letter of the kind, 1..3 (thorough 4) declarators per statement; only consistent spellings (every annotation of a declaration that names a group names the group of its letter, none names one for a letter without explicit group), so no priority between conflicting annotations is assumed; single-bracket attributes, repeated register annotations on one declarator and conflicting groups are outside the explored space".into(),
         "the language binding index I (= 5 + position) must not influence api slots: the property hands out ranges from zero in declaration order and assign_api_bindings documents that api slots are independent of language registers".into(),
         "spelled single declarations of static samplers and non-resource globals that the type checker rejects (binding index on a static sampler, register() on a numeric type) are counted (spelling_rejected|...) and skipped; a rejection of a spelled object declaration / cbuffer block / multi-declarator statement is outside the property's domain and counted (spelled_history_rejected(not compared)|...)".into(),
